@@ -10,7 +10,7 @@ alpha has two halves, both written without importing anything from htmltools:
 spec/trace/ParseTrace.tla compares ElementView(tree) with the token events."""
 from __future__ import annotations
 
-from ..core import Prop, cps
+from ..core import Prop, cps, uncps
 from .. import gamma
 from .layout import _LayoutBase, names as layout_names
 
@@ -261,6 +261,9 @@ class C01(Prop):
             v = rnd.choice(gamma.HOSTILE) if rnd.random() < 0.7 else gamma.rand_text(rnd, 12)
             if rnd.random() < 0.15:
                 v = rnd.choice([True, 5, 2.5, ""])
+            elif rnd.random() < 0.06:
+                # long values (an implementation may take another path for long strings)
+                v = rnd.choice(gamma.LONG_HOSTILE + ["q" * 300 + '"' + "r" * 10 + "'<&>\n", "w" * 255 + '"'])
             attrs[rnd.choice(ATTR_NAMES)] = v
         exp = {"k": "tag", "name": name, "attrs": [{"n": a, "v": cps("" if v is True else str(v))} for a, v in attrs.items()],
                "c": exps, "t": []}
@@ -297,7 +300,27 @@ class C01(Prop):
         if g["kind"] == "tree":
             obj, described = self.concretise(g["tree"], H, rnd, g["salt"])
             out = obj.get_html_string(g["indent"], g["eol"])
-            return {"tree": described, "events": tokenize(out), "gen": g}
+            recs = [{"tree": described, "events": tokenize(out), "gen": g}]
+            if g["salt"] % 4 == 0 and isinstance(obj, H.Tag) and described["attrs"]:
+                # the SAME object rendered again after one of its attributes went away (item deletion / pop / the
+                # class helper): the markup follows the tree as it is now
+                import copy as _copy
+                d2 = _copy.deepcopy(described)
+                names = [a["n"] for a in d2["attrs"]]
+                victim = names[g["salt"] // 4 % len(names)]
+                how = g["salt"] // 4 % 3
+                if victim == "class" and uncps(d2["attrs"][names.index("class")]["v"]).split() == ["k"]:
+                    obj.remove_class("k")
+                elif how == 0:
+                    del obj.attrs[victim]
+                elif how == 1:
+                    obj.attrs.pop(victim)
+                else:
+                    obj.attrs.pop(victim, None)
+                d2["attrs"] = [a for a in d2["attrs"] if a["n"] != victim]
+                out2 = obj.get_html_string(g["indent"], g["eol"])
+                recs.append({"tree": d2, "events": tokenize(out2), "gen": dict(g, second=True)})
+            return recs
         else:
             nm = g["name"]
             raw = nm in ("script", "style")
